@@ -93,6 +93,44 @@ struct brute_t
     bool   any{false};
 };
 
+// sum over the fit samples of (|w * x| + |b| + |target|)^2: the size of the terms the closed-form scores add up and cancel
+// (affine / hinge: from the coefficient tables and the selected feature's values; other classes: |prediction| + |target|)
+double term_magnitude(const problem_t& p, const wlearner_t& learner, const tensor4d_t& predictions, const string_t& id)
+{
+    double      total  = 0.0;
+    const auto* single = dynamic_cast<const single_feature_wlearner_t*>(&learner);
+    if ((id == "hinge" || id == "affine") && single != nullptr && single->feature() >= 0 && single->tables().size<0>() == 2)
+    {
+        auto dataset = dataset_t{*p.source, 1U};
+        vf::add_identity_generators(dataset);
+        scalar_mem_t buffer;
+        const auto   values = dataset.select(p.samples, single->feature(), buffer);
+        const auto   w = single->vector(0), b = single->vector(1);
+        for (tensor_size_t i = 0; i < p.samples.size(); ++i)
+        {
+            if (!std::isfinite(values(i)))
+            {
+                continue;
+            }
+            for (tensor_size_t k = 0; k < p.tsize; ++k)
+            {
+                const auto term = std::fabs(w(k) * values(i)) + std::fabs(b(k)) + std::fabs(p.gradients(p.samples(i) * p.tsize + k));
+                total += term * term;
+            }
+        }
+        return std::isfinite(total) ? total : 0.0;
+    }
+    for (tensor_size_t i = 0; i < p.samples.size(); ++i)
+    {
+        for (tensor_size_t k = 0; k < p.tsize; ++k)
+        {
+            const auto term = std::fabs(predictions(p.samples(i) * p.tsize + k)) + std::fabs(p.gradients(p.samples(i) * p.tsize + k));
+            total += term * term;
+        }
+    }
+    return std::isfinite(total) ? total : 0.0;
+}
+
 double total_r2(const problem_t& p)
 {
     double v = 0.0;
@@ -454,14 +492,20 @@ void body(ctx_t& c)
     if (criterion == "rss")
     {
         const auto achieved = rss_of(p, sim.predictions);
-        const auto tol      = 1e-9 * std::max(1.0, r2);
+        // the library scores candidates in closed form from accumulated moments (r2 + beta^2 * sum (x-t)^2 - 2 beta * sum r (x-t)):
+        // the rounding error of that expression is proportional to the magnitude of its terms BEFORE they cancel, not to the
+        // RSS. A hinge that is active on one sample 1e-3 away from its threshold has |w * x| and |b| ~ 4e3 for targets of
+        // size 1; the closed form then carries ~1e-7 of noise and may also prefer a candidate that is worse by that much.
+        const auto tol = 1e-9 * std::max(1.0, r2) + 64.0 * std::numeric_limits<double>::epsilon() * term_magnitude(p, *sim.learner, sim.predictions, id);
         // the reported score is the RSS of the fitted learner's own predictions (floored at 1e3 * epsilon by the library)
         // (the statement makes this claim for the five classes below only: k-best / k-split tables and trees are checked
         // through the schedule differential and the consistency clauses)
         const bool in_class = id == "stump" || id == "affine" || id == "hinge" || id == "dense-table" || id == "dstep-table";
         if (in_class && std::fabs(std::max(achieved, 2.3e-13) - std::max(sim.score, 2.3e-13)) > tol)
         {
-            c.fail("score-not-reproduced", id + ": reported RSS " + std::to_string(sim.score) + " but the predictions give " + std::to_string(achieved));
+            char num[160];
+            snprintf(num, sizeof(num), " (reported %.17g, achieved %.17g, sum of squared targets %.6g)", sim.score, achieved, r2);
+            c.fail("score-not-reproduced", id + ": reported RSS " + std::to_string(sim.score) + " but the predictions give " + std::to_string(achieved) + num);
             return;
         }
         if (!in_class && std::fabs(std::max(achieved, 2.3e-13) - std::max(sim.score, 2.3e-13)) > tol)
